@@ -76,6 +76,7 @@ func (x *Exec) call(fr *Frame, instr ssa.Instruction, c *ssa.CallCommon, st *Sta
 	if c.IsInvoke() {
 		recv := x.val(fr, c.Value)
 		key := x.ifaceKey(c)
+		x.callAnchors(fr, key, st, reach, pos)
 		if _, ok := types.Unalias(c.Value.Type()).(*types.TypeParam); ok {
 			// method of a type parameter: pure uninterpreted function of the receiver
 			x.trustedUsed["method "+c.Method.Name()+" of the type parameter is a pure function of its receiver (every instantiation in /repo carries a `def` contract)"] = true
@@ -180,6 +181,7 @@ func (x *Exec) call(fr *Frame, instr ssa.Instruction, c *ssa.CallCommon, st *Sta
 	if callee.Pkg == nil || !strings.HasPrefix(callee.Pkg.Pkg.Path(), modPath) {
 		key = fullName(callee)
 	}
+	x.callAnchors(fr, key, st, reach, pos)
 	if fc := x.eng.cs.Funcs[key]; fc != nil && !fc.Flags["inline"] && !(x.fnKey == key && false) {
 		var names []string
 		if len(fc.Params) > 0 {
@@ -198,7 +200,16 @@ func (x *Exec) call(fr *Frame, instr ssa.Instruction, c *ssa.CallCommon, st *Sta
 	if v, nst, ok := x.eng.builtinCall(x, fr, fullName(callee), args, resT, st, reach, pos); ok {
 		return v, nst
 	}
-	if x.flags["lockonly"] && callee.Blocks != nil && !x.eng.touchesLocks(x, callee, 0) {
+	thinHavoc := false
+	if len(x.only) > 0 && callee.Blocks != nil {
+		if len(x.only) == 1 && x.only[0] == "locks" {
+			thinHavoc = !x.eng.touchesLocks(x, callee, 0)
+		} else if hasLoops(callee) || x.depth >= 5 {
+			thinHavoc = true
+			x.sc.note("thin unit: call to %s (loops, no contract) abstracted", key)
+		}
+	}
+	if (x.flags["lockonly"] && callee.Blocks != nil && !x.eng.touchesLocks(x, callee, 0)) || thinHavoc {
 		// lock-discipline unit: a callee without lock operations or guarded accesses is irrelevant
 		nst := st.clone()
 		x.havocAll(nst)
@@ -285,9 +296,16 @@ func (x *Exec) freshVal(prefix string, t types.Type) Val {
 }
 
 func (x *Exec) havocCall(what string, resT *types.Tuple, st *State, reach Term, pos token.Pos) (Val, *State) {
-	x.sc.note("call to %s has no contract: results and heap havocked", what)
 	nst := st.clone()
-	x.havocAll(nst)
+	if len(x.only) > 0 && !strings.HasPrefix(what, "klevdb.") && !strings.HasPrefix(what, "index.") && !strings.HasPrefix(what, "message.") &&
+		!strings.HasPrefix(what, "segment.") && !strings.HasPrefix(what, "kdir.") && !strings.HasPrefix(what, "notify.") && !strings.HasPrefix(what, "dynamic call") {
+		// thin unit: a library call without contract yields arbitrary results but does not touch klevdb's
+		// heap, its mutexes or the ghost file system
+		x.sc.note("thin unit: library call %s: results arbitrary, no effect on klevdb state assumed", what)
+	} else {
+		x.sc.note("call to %s has no contract: results and heap havocked", what)
+		x.havocAll(nst)
+	}
 	var rets []Val
 	for i := 0; i < resT.Len(); i++ {
 		rets = append(rets, x.freshVal("hv_ret", resT.At(i).Type()))
@@ -333,6 +351,11 @@ func (x *Exec) applyContract(fc *FuncContract, key string, names []string, args 
 	x.sc.assert(le(oldTop, nb))
 	x.allocBase = nb
 	x.allocN = 0
+	// whatever the callee stored refers to objects existing after the call
+	for _, pc := range x.pendingClosure {
+		x.closure(pc[0], pc[1], nb)
+	}
+	x.pendingClosure = nil
 	// results
 	var rets []Val
 	penv := &Env{vars: map[string]Val{}, cur: post, old: pre, pkg: pkg, x: x, freshLo: oldTop, freshHi: nb}
@@ -431,6 +454,20 @@ func (x *Exec) havocAssigns(fc *FuncContract, env *Env, post *State) {
 			}
 			x.fail("assigns: unsupported %s", a.cstr())
 		case *CSel:
+			// pkg.Type.field (whole field of a type of another package)
+			if q, ok := t.X.(*CSel); ok {
+				if pid, ok := q.X.(*CIdent); ok {
+					if _, isVar := env.vars[pid.Name]; !isVar {
+						if pk := x.eng.importedPkg(env.pkg, pid.Name); pk != nil {
+							if si, fi := x.eng.lookupTypeField(x, pk, q.Name, t.Name); si != nil {
+								key, srt := x.fieldKeyOrGhost(si, fi, t.Name)
+								post.heap[key] = x.sc.freshConst("hv_"+key, srt)
+								continue
+							}
+						}
+					}
+				}
+			}
 			// Type.field (whole field) or expr.field (one object)
 			if id, ok := t.X.(*CIdent); ok {
 				if _, isVar := env.vars[id.Name]; !isVar {
@@ -490,6 +527,7 @@ func (x *Exec) havocAssigns(fc *FuncContract, env *Env, post *State) {
 		}
 		x.sc.assert(fmt.Sprintf("(forall ((r Int)) (! (=> %s (= (select %s r) (select %s r))) :pattern ((select %s r))))", and(ne...), nh, h, nh))
 		post.heap[key] = nh
+		x.pendingClosure = append(x.pendingClosure, [2]string{key, nh})
 	}
 }
 
@@ -558,6 +596,17 @@ func (x *Exec) lenOf(st *State, v Val) Term {
 // appendOp models append(s, t...) with Go's aliasing rule.
 func (x *Exec) appendOp(args []Val, resT types.Type, st *State, reach Term, pos token.Pos) (Val, *State) {
 	s, t := args[0], args[1]
+	// name the operands: they appear in quantifier patterns, which must not contain ite terms
+	if strings.Contains(s.S, "(") {
+		c := x.sc.freshConst("apps", "Slice")
+		x.sc.assert(eq(c, s.S))
+		s.S = c
+	}
+	if strings.Contains(t.S, "(") {
+		c := x.sc.freshConst("appt", "Slice")
+		x.sc.assert(eq(c, t.S))
+		t.S = c
+	}
 	slt := under(s.T).(*types.Slice)
 	key, srt := x.elemKey(slt.Elem())
 	es := x.so.sortOf(slt.Elem())
@@ -624,4 +673,12 @@ func (x *Exec) copyOp(args []Val, resT types.Type, st *State, reach Term) (Val, 
 		na, d.S, d.S, n, sArr, soff, d.S, dArr, na))
 	st.heap[key] = x.name("h", srt, ite(eq(n, "0"), h, store(h, app("s_reg", d.S), na)))
 	return Val{T: resT, S: n}, st
+}
+
+func hasLoops(fn *ssa.Function) bool {
+	if fn.Blocks == nil {
+		return false
+	}
+	_, back := rpo(fn)
+	return len(back) > 0
 }
